@@ -85,9 +85,11 @@ impl<'a> ParseChain<ActionExprChain> for ActionExprChainBuilder<'a> {
                         //
                         // `syn` takes any word for the name of an identifier pattern, keywords included
                         // (`let move = ..`), which can't be bound.
+                        // A name with a subpattern (`name @ 1`) isn't a plain name.
                         //
                         Pat::Ident(pat)
-                            if syn::parse_str::<syn::Ident>(&pat.ident.to_string()).is_ok() =>
+                            if pat.subpat.is_none()
+                                && syn::parse_str::<syn::Ident>(&pat.ident.to_string()).is_ok() =>
                         {
                             chain.set_id(Some(pat.clone()));
                         }
